@@ -1,6 +1,8 @@
 import Anything.Lemmas.C06Defs
 import Anything.Lemmas.C06Eval
 import Anything.Lemmas.C06Shift
+import Anything.Lemmas.C06Lex
+import Anything.Lemmas.C06Root
 /-!
 # C06 — operator precedence, associativity and grouping are respected
 
@@ -10,6 +12,16 @@ Property theorems only; the proofs live in `Lemmas/C06*.lean`.
   returns the exact value of `Spec.Arith.denote`, or an error when `denote` is an error.
 * **Stage B** (`C06_shiftReduce_correct`): precedence climbing with the stack discipline of the
   grammar's `opLoop` rebuilds every well-formed expression from its flat token sequence.
+* **Stage C** (`C06_lex_render`, `C06_lex_renderQuery`): the lexer on a rendered expression
+  yields its in-order token list with one WHITESPACE token per non-empty blank.
+* **Stage D** (`C06_parse_render`): for every well-formed expression — literals, percentages,
+  operator chains of any length and mix, parentheses at any depth, function calls — and every
+  admissible layout, `parseRoot` succeeds on the rendered query and the single non-blank tree of
+  the forest represents the expression. The proof (`Lemmas/C06Builder`, `C06Frames`, `C06Parse`,
+  `C06Root`) relates the `opLoop` stack of `(cell, priority, isUnit)` frames to the stack of the
+  specification-level machine of stage B.
+* **Final** (`C06_query`, `C06_layout_irrelevant`, `C06_paren_anywhere`): `Eval.query` on a
+  rendered query answers exactly `[denote e]`.
 
 `Represents`, `FoldR`, `LitsOK`, `RoundOK`, `Outcome` are defined in `Lemmas/C06Defs.lean`,
 the shift-reduce machine in `Lemmas/C06Shift.lean`.
@@ -108,5 +120,184 @@ example :
     (flat (.bin .sub (.bin .add one (.bin .mul two (.bin .pow three two))) four)).2.length = 4 ∧
     ¬ WF (.bin .mul (.bin .add one two) three) := by
   simp [WF, flat, NExpr.prio, BinOp.prio, natLit, Literal.WF, fracDigits]
+
+/-! ## Stage C — lexer -/
+
+/-- **C06 (lexer on renderings).** For every expression and every layout satisfying the
+property's side conditions (`LayoutOK`: blanks are white space — any number of spaces, tabs
+or other white-space characters, or nothing — and a binary `+`/`-` directly followed by an
+unsigned literal is followed by at least one blank), the lexer produces, on the rendering of `e`
+followed by any text that lexes to `ts` and starts with a blank or a closing delimiter or an
+operator, exactly the in-order token list `toks e ws` of `e` — one WHITESPACE token per
+non-empty blank — followed by `ts`. -/
+theorem C06_lex_render (e : NExpr) (ws : Layout) (rest : List Char) (ts : List Token)
+    (h : LayoutOK e ws) (hs : ExprStop rest) (hrest : Lexes rest ts) :
+    Lexer.lex ((Arith.render e ws).1 ++ rest) = toks e ws ++ ts :=
+  lexes_lex (lex_e e ws rest ts h hs hrest)
+
+/-- **C06 (lexer on rendered queries).** The token list of a whole rendered query: leading
+blank, the tokens of the expression, trailing blank. -/
+theorem C06_lex_renderQuery (e : NExpr) (ws : Layout) (h : QueryLayoutOK e ws) :
+    Lexer.lex (renderQuery e ws) = queryToks e ws :=
+  lex_query e ws h
+
+/-- The hypothesis `LayoutOK` cannot be dropped: with no blank after a binary `+` the sign is
+glued to the following literal and the token list is a different one. -/
+theorem C06_lex_needs_LayoutOK :
+    Lexer.lex (renderQuery (.bin .add (.lit (natLit [1])) (.lit (natLit [2]))) [[], [], [], []]) ≠
+      queryToks (.bin .add (.lit (natLit [1])) (.lit (natLit [2]))) [[], [], [], []] := by
+  decide +kernel
+
+/-- Non-vacuity: `( 1+ 2 )*3` with tabs and several spaces is an admissible layout, and its
+token list has eleven tokens. -/
+example :
+    let e := NExpr.bin .mul (.paren (.bin .add (.lit (natLit [1])) (.lit (natLit [2]))))
+      (.lit (natLit [3]))
+    let ws : Layout := [[' ', '\t'], [' '], [], [' ', ' '], ['\t'], [], [], []]
+    QueryLayoutOK e ws ∧ (queryToks e ws).length = 11 := by
+  refine ⟨?_, by decide⟩
+  simp [QueryLayoutOK, LayoutOK, Blank, blank1, rest1, after, nextBlank, Arith.render, natLit,
+    Literal.WF, fracDigits, startsUnsigned]
+  decide
+
+/-! ## Stage D — parser -/
+
+/-- **C06 (parser on renderings).** For every well-formed expression `e` (operator chains of any
+length and any mix of the five operators, parentheses nested to any depth, calls with any
+number of arguments) and every layout admitted by the property (`QueryLayoutOK`), parsing the
+rendered query succeeds and the forest consists of blank leaves and exactly one other tree,
+which represents `e` — so the tree groups operands exactly as the documented grammar does. -/
+theorem C06_parse_render (e : NExpr) (ws : Layout) (hwf : WF e) (hl : QueryLayoutOK e ws) :
+    ∃ forest x, Grammar.parseRoot (renderQuery e ws) = .ok forest ∧
+      forest.filter (fun t => t.kind != .WHITESPACE) = [x] ∧ Represents x e := by
+  obtain ⟨forest, hp, hF⟩ := parse_render e ws hwf hl
+  obtain ⟨x, hx, hr⟩ := forestOK_filter hF
+  exact ⟨forest, x, hp, hx, hr⟩
+
+/-- `C06_parse_render` with the position of the blanks made explicit: blank leaves, the tree,
+blank leaves. -/
+theorem C06_parse_render_shape (e : NExpr) (ws : Layout) (hwf : WF e) (hl : QueryLayoutOK e ws) :
+    ∃ forest lead x trail, Grammar.parseRoot (renderQuery e ws) = .ok forest ∧
+      forest = lead ++ [x] ++ trail ∧ WSTrees lead ∧ WSTrees trail ∧ Represents x e := by
+  obtain ⟨forest, hp, Wt, x, Wt', hf, h1, h2, hx⟩ := parse_render e ws hwf hl
+  exact ⟨forest, Wt, x, Wt', hp, hf, h1, h2, hx⟩
+
+/-! ## Final — the whole pipeline -/
+
+/-- **C06 (query).** `Eval.query` on the rendering of a well-formed expression under any
+admissible layout answers with exactly one result and no descriptions: the exact rational
+`denote e` as a plain number, or an `err` when `denote e` is an error. The side conditions are the
+reader's `u32` guards on literals (`LitsOK`) and an `i32` integer as second argument of `round`
+(`RoundOK`); see the remarks at the end of this file. -/
+theorem C06_query (cfg : Cfg) (e : NExpr) (ws : Layout) (hwf : WF e) (hl : QueryLayoutOK e ws)
+    (hlit : LitsOK e) (hro : RoundOK e) :
+    QueryOutcome (denote e) (Eval.query cfg (renderQuery e ws)) :=
+  query_render cfg e ws hwf hl hlit hro
+
+/-- Value form of `C06_query`. -/
+theorem C06_query_ok (cfg : Cfg) (e : NExpr) (ws : Layout) (v : Rat) (hwf : WF e)
+    (hl : QueryLayoutOK e ws) (hlit : LitsOK e) (hro : RoundOK e) (hv : denote e = .ok v) :
+    Eval.query cfg (renderQuery e ws) = .ok ([.ok { value := v, unit := [] }], []) := by
+  have := C06_query cfg e ws hwf hl hlit hro
+  rw [hv] at this
+  exact this
+
+/-- Results with the kind and span of errors forgotten (spans are byte offsets into the query
+text, hence depend on the blanks). -/
+def values (r : Except BErr (List (Except EvalErr Numeric) × List Desc)) :
+    Option (List (Option Rat) × List Desc) :=
+  match r with
+  | .ok (rs, d) => some (rs.map (fun x => match x with | .ok n => some n.value | .error _ => none), d)
+  | .error _ => none
+
+/-- **C06 (layout irrelevant).** Two admissible layouts of the same expression give the same
+results: the same value (and literally the same answer of `Eval.query`), or an error under both.
+The number and kind of blanks at every blank position, and at either end of the query, do not
+matter. -/
+theorem C06_layout_irrelevant (cfg : Cfg) (e : NExpr) (ws ws' : Layout) (hwf : WF e)
+    (hl : QueryLayoutOK e ws) (hl' : QueryLayoutOK e ws') (hlit : LitsOK e) (hro : RoundOK e) :
+    values (Eval.query cfg (renderQuery e ws)) = values (Eval.query cfg (renderQuery e ws')) ∧
+    (∀ v, denote e = .ok v →
+      Eval.query cfg (renderQuery e ws) = Eval.query cfg (renderQuery e ws')) := by
+  have h1 := C06_query cfg e ws hwf hl hlit hro
+  have h2 := C06_query cfg e ws' hwf hl' hlit hro
+  cases hd : denote e with
+  | ok v =>
+    rw [hd] at h1 h2
+    simp only [QueryOutcome] at h1 h2
+    exact ⟨by rw [h1, h2], fun _ _ => by rw [h1, h2]⟩
+  | error x =>
+    rw [hd] at h1 h2
+    obtain ⟨k1, s1, e1, h1⟩ := h1
+    obtain ⟨k2, s2, e2, h2⟩ := h2
+    exact ⟨by rw [h1, h2]; rfl, fun v hv => by cases hv⟩
+
+/-- **C06 (parentheses anywhere).** A parenthesised sub-expression `( a )` is evaluated as a
+unit wherever it stands — as left operand, as right operand, nested in further parentheses, as a
+function argument: the answer is that of the expression tree in which `a` is a *single operand*
+(`denote (.bin op a b)` etc., whatever operators `a` itself contains). Deeper placements
+(first, last, inside other groups or arguments) are instances of `C06_query`, which holds for
+every well-formed expression. -/
+theorem C06_paren_anywhere (cfg : Cfg) (op : BinOp) (f : Fn) (a b : NExpr) (ws : Layout) :
+    (WF (.bin op (.paren a) b) → QueryLayoutOK (.bin op (.paren a) b) ws →
+      LitsOK (.bin op a b) → RoundOK (.bin op a b) →
+      QueryOutcome (denote (.bin op a b))
+        (Eval.query cfg (renderQuery (.bin op (.paren a) b) ws))) ∧
+    (WF (.bin op b (.paren a)) → QueryLayoutOK (.bin op b (.paren a)) ws →
+      LitsOK (.bin op b a) → RoundOK (.bin op b a) →
+      QueryOutcome (denote (.bin op b a))
+        (Eval.query cfg (renderQuery (.bin op b (.paren a)) ws))) ∧
+    (WF a → QueryLayoutOK (.paren (.paren a)) ws → LitsOK a → RoundOK a →
+      QueryOutcome (denote a) (Eval.query cfg (renderQuery (.paren (.paren a)) ws))) ∧
+    (WF a → QueryLayoutOK (.call f [.paren a]) ws → LitsOK a → RoundOK (.call f [a]) →
+      QueryOutcome (denote (.call f [a]))
+        (Eval.query cfg (renderQuery (.call f [.paren a]) ws))) := by
+  refine ⟨fun hwf hl hlit hro => ?_, fun hwf hl hlit hro => ?_, fun hwf hl hlit hro => ?_,
+    fun hwf hl hlit hro => ?_⟩
+  · rw [← denote_paren_left]
+    exact C06_query cfg _ ws hwf hl hlit hro
+  · rw [← denote_paren_right]
+    exact C06_query cfg _ ws hwf hl hlit hro
+  · rw [← denote_paren_paren]
+    exact C06_query cfg _ ws hwf hl hlit hro
+  · rw [← denote_paren_arg]
+    refine C06_query cfg _ ws ?_ hl ?_ ?_
+    · simpa [WF, WFList] using hwf
+    · simpa [LitsOK, LitsOKList] using hlit
+    · simp only [RoundOK, RoundOKList] at hro ⊢
+      refine ⟨hro.1, ?_⟩
+      intro _ x y hxy
+      simp at hxy
+
+/-- Non-vacuity of the final theorems: `(1 + 2) * 3` with an irregular layout satisfies every
+hypothesis of `C06_query`, and its value is `9` — not the `7` of `1 + 2 * 3`. -/
+example :
+    let e := NExpr.bin .mul (.paren (.bin .add (.lit (natLit [1])) (.lit (natLit [2]))))
+      (.lit (natLit [3]))
+    let ws : Layout := [[' ', '\t'], [' '], [], [' ', ' '], ['\t'], [], [], []]
+    WF e ∧ QueryLayoutOK e ws ∧ LitsOK e ∧ RoundOK e ∧ denote e = .ok 9 := by
+  refine ⟨?_, ?_, ?_, ?_, by decide +kernel⟩
+  · simp [WF, NExpr.prio, BinOp.prio, natLit, Literal.WF, fracDigits]
+  · simp [QueryLayoutOK, LayoutOK, Blank, blank1, rest1, after, nextBlank, Arith.render, natLit,
+      Literal.WF, fracDigits, startsUnsigned]
+    decide
+  · simp [LitsOK, LitOK, natLit, Literal.WF, fracDigits, Number.u32Max]
+  · simp [RoundOK]
+
+/-!
+## Remarks (model / specification oddities met on the way)
+
+* `round(x, n)`: the code truncates the second argument with `to_i32` (`RatNum.toI32`), so a
+  non-integral `n` (`round(1, 2.5)` rounds to two digits) or an `n` outside `i32` (an error in the
+  code) disagree with `Spec.Arith.applyFn`, which answers `.error .other` resp. a value. `RoundOK`
+  excludes exactly these.
+* Literals whose fraction has more than `u32::MAX` digits, or whose exponent exceeds `u32::MAX`,
+  are rejected by the reader (`C07_guard_*`); `LitsOK` excludes them.
+* `^` is LEFT associative in the grammar (`2^3^2 = 64`), as the property text says ("operators of
+  equal precedence group left to right"); `Spec.Arith.WF` agrees.
+* A call with an empty argument list parses to an FN_ARGUMENTS node without children, which the
+  evaluator skips (`has_children`), answering `unexpected`; the specification answers an arity
+  error — both errors, so `C06_query` covers it.
+-/
 
 end Anything.Props.C06
